@@ -15,7 +15,8 @@ SPEC = {
         ("_match_non_emitting_states_end(next column written only through keep-the-better upsert; worse candidates dropped)", 'ne_end', r'^ne-end:'),
         ("match(per observation: emitting expansion first and unconditional, non-emitting search after it iff enabled)", 'match', r'^loop:(emitting-expansion|non-emitting-search)'),
         ("_match_non_emitting_states(per level: one more non-emitting step, then every live entry of the level is linked to the next observation)", 'ne_levels', r'^levels:(steps|every-live|inner-step)'),
-        ("BaseMatcher.__init__(cut-offs and noise do not depend on the non_emitting_states switch or any other switch)", 'matcher_init', r'^init:')],
+        ("BaseMatcher.__init__(cut-offs and noise do not depend on the non_emitting_states switch or any other switch)", 'matcher_init', r'^init:'),
+        ("_match_states(the emitting expansion of an entry does not depend on how the entry was reached: stay + one call per neighbour the map offers)", 'match_states', r'^cover:')],
     'bounded': [
         ('ne-on-vs-off', suites.case_C06, 1500, 200000, RULE + '; ' + 'non-trivial = the run with non-emitting states uses one on its best path or the matched indices differ', '')],
 }
